@@ -21,6 +21,7 @@ from __future__ import annotations
 
 import copy
 import json
+import time
 
 from harness import common
 from harness.corr import meta_common as mc
@@ -88,7 +89,19 @@ def _do_op(obj, op):
         setattr(obj, op["f"], v)
         return obj
     if k == "copy":
-        new = copy.deepcopy(obj) if op.get("how") == "deepcopy" else obj.model_copy()
+        how = op.get("how")
+        if how == "deepcopy":
+            new = copy.deepcopy(obj)
+        elif how == "model_copy_deep":
+            new = obj.model_copy(deep=True)
+        elif how == "copy_copy":
+            new = copy.copy(obj)
+        elif how == "pickle":
+            import pickle
+
+            new = pickle.loads(pickle.dumps(obj))
+        else:
+            new = obj.model_copy()
         if new is obj:
             raise AssertionError("copy returned the same object")
         return new
@@ -153,6 +166,7 @@ def impl_obs(case):
         return obs
     obs["init"] = "ok"
     obs["obj"] = _observe(obj)
+    left_behind = []  # objects a copy / helper result was taken from: later steps must not reach them
     for op in case["ops"]:
         before = _observe(obj)
         try:
@@ -166,7 +180,10 @@ def impl_obs(case):
             st["arg_after"] = after["dump"]
             st["arg_before"] = before["dump"]
         obs["steps"].append(st)
+        if new is not obj:
+            left_behind.append((obj, after))
         obj = new
+    obs["alias_changed"] = [i for i, (o, was) in enumerate(left_behind) if _observe(o) != was]
     return obs
 
 
@@ -266,7 +283,8 @@ def single_op_cases():
     ax = lambda n, **kw: {"name": n, **kw}  # noqa: E731
     pm = lambda i, dt="int64", **kw: {"identifier": i, "dtype": dt, **kw}  # noqa: E731
     helper_ops = [
-        {"k": "copy", "how": "model_copy"}, {"k": "copy", "how": "deepcopy"},
+        {"k": "copy", "how": "model_copy"}, {"k": "copy", "how": "deepcopy"}, {"k": "copy", "how": "model_copy_deep"},
+        {"k": "copy", "how": "copy_copy"}, {"k": "copy", "how": "pickle"},
         {"k": "updateAxes", "names": ["x", "y"]},
         {"k": "updateAxes", "names": []},
         {"k": "updateAxes", "names": ["x", "y", "z", "t"], "units": ["micrometer", "micrometer", None, "second"],
@@ -395,7 +413,7 @@ def random_history(rng, cat, nops):
                         pass
             ops.append({"k": "assign", "f": f, "v": v, "inst": rng.random() < 0.5})
         elif r < 0.65:
-            ops.append({"k": "copy", "how": rng.choice(["model_copy", "deepcopy"])})
+            ops.append({"k": "copy", "how": rng.choice(["model_copy", "deepcopy", "model_copy_deep", "copy_copy", "pickle"])})
         elif r < 0.78:
             pool = list(hinted) + rng.sample(mc.NAMES, rng.randint(0, 3))
             ns = list(dict.fromkeys(pool)) if not invalid else rng.choices(mc.NAMES, k=rng.randint(1, 3))
@@ -501,6 +519,8 @@ def compare(ck, case, im, mo):
 
     if not same("init-object", -1, im["obj"], mo["obj"]):
         return
+    if im.get("alias_changed"):
+        ck.corr_broken("C07:copy-is-independent", case, {"objects left behind that changed later": im["alias_changed"]}, [])
     for i, (ist, mst) in enumerate(zip(im["steps"], mo["steps"])):
         if ist["out"] != mst["out"]:
             ck.corr_broken(f"C07:outcome:{case['ops'][i]['k']}", case, {"step": i, "out": ist["out"]}, {"out": mst["out"]})
@@ -524,7 +544,10 @@ def tag_of(case, im):
 
 
 def run(ck: common.Check):
+    _t = [time.time()]
     ck.prove(["GeffProps.C07"])
+    _ph = {"prove": round(time.time() - _t[0], 1)}
+    _t[0] = time.time()
     mc.init_env()
     ck.rule = ("cases = corpus + every catalogue value (valid / invalid / context-dependent) assigned to its field on 12 "
                "base objects and given at construction through kwargs, model_validate, model_validate_json and zarr v2/v3 "
@@ -541,11 +564,39 @@ def run(ck: common.Check):
     ck.extra["random_histories"] = nrand
 
     impl = common.pmap(impl_obs, cases, chunksize=64)
+    _ph["implementation"] = round(time.time() - _t[0], 1)
+    _t[0] = time.time()
     drv = ck.driver()
     reqs = [model_request(c) for c in cases]
-    model = drv.ask(reqs)
-    if model is None:
+    # the Lean specification evaluated directly on the implementation's last observed dump of every history
+    last = []
+    for idx, (c, im) in enumerate(zip(cases, impl)):
+        if c.get("kind") == "axes" or im.get("init") != "ok":
+            continue
+        o = im["steps"][-1] if im["steps"] else im["obj"]
+        if isinstance(o["dump"], dict):
+            last.append((idx, o))
+    sreqs = [{"op": "valid", "env": reqs[idx]["env"], "dump": o["dump"]} for idx, o in last]
+    _ph["requests"] = round(time.time() - _t[0], 1)
+    _t[0] = time.time()
+    answers = drv.ask(reqs + sreqs)
+    _ph["lean_driver"] = round(time.time() - _t[0], 1)
+    ck.extra["phase_seconds"] = _ph
+    model = svals = None
+    if answers is None:
         ck.broken.append({"what": "driver Drivers/C07.lean", "detail": drv.broken})
+    else:
+        model, svals = answers[: len(reqs)], answers[len(reqs):]
+        n_s = 0
+        for (idx, o), sv in zip(last, svals):
+            if "err" in sv or not sv.get("decoded"):
+                if o["viol"] != "malformed-dump":
+                    ck.corr_broken("C07:lean-spec-on-observed-dump(decode)", cases[idx], o["viol"], sv)
+                continue
+            n_s += 1
+            if sv["viol"] != o["viol"] or mc.canon(sv["redump"]) != o["dump"]:
+                ck.corr_broken("C07:lean-spec-on-observed-dump", cases[idx], {"viol": o["viol"]}, {"viol": sv["viol"]})
+        ck.extra["lean_spec_evaluations_on_observed_dumps"] = n_s
     nsteps = 0
     for idx, (c, im) in enumerate(zip(cases, impl)):
         ck.case({k: v for k, v in c.items() if k in ("init", "ops", "kind", "args")}, tag_of(c, im),
